@@ -174,6 +174,8 @@ def h04_chain(S, max_n=2):
 
     N = S.int("retries", 0, max_n)
     fails = [S.bool(f"fail{i}") for i in range(max_n + 1)]
+    # how an attempt fails: by raising, or by returning something the converter cannot encode
+    by_return = S.flag("failures_are_unencodable_return_values")
     runs = []
     out = {}
 
@@ -188,6 +190,8 @@ def h04_chain(S, max_n=2):
             i = len(runs)
             runs.append(loop.time())
             if fails[i]:
+                if by_return:
+                    return object()
                 raise ValueError("x")
 
         j = Job("job", retries=N, _connection=conn, id_="m1")
